@@ -336,6 +336,51 @@ func C19(c *core.Ctx) {
 			}
 			return 0, 0
 		}}
+		// the merge takes EVERY finite desired entry: an unreachable (infinite-cost) desired
+		// entry is passed over, the scan goes on — it does not end there (the desired list of
+		// a multi-homed prefix is the concatenation of several routers' next hops, each best
+		// first: a router without a finite second-best is followed by other routers' hops)
+		{
+			nSkip, ended := 0, ""
+			for _, f := range core.EdgeFacts(uh, gone) {
+				if !f.Holds {
+					continue
+				}
+				h := loopHeader(f.E.From)
+				if h == nil {
+					continue
+				}
+				// only the scan of the desired entries (the parameter), not the sweep of the
+				// stored ones that issues the commands
+				isParamScan := false
+				core.Instrs(uh, func(in ssa.Instruction) {
+					if rg, ok := in.(*ssa.Range); ok && in.Block() != nil {
+						_ = rg
+					}
+				})
+				for _, in := range h.Instrs {
+					if ph, ok := in.(*ssa.Phi); ok {
+						_ = ph
+					}
+				}
+				// the loop's collection: length compared in the header comes from the parameter
+				for _, in := range h.Instrs {
+					if b, ok := in.(*ssa.BinOp); ok && b.Op == token.LSS {
+						if l, isLen := core.LenOf(core.StripConv(b.Y)); isLen && len(uh.Params) >= 4 && core.Strip(l) == ssa.Value(uh.Params[3]) {
+							isParamScan = true
+						}
+					}
+				}
+				if !isParamScan {
+					continue
+				}
+				nSkip++
+				if core.ReachAvoiding(uh, f.E.To, map[*ssa.BasicBlock]bool{h: true}, nil) == nil && f.E.To != h {
+					ended = c.Pos(f.E.From.Instrs[len(f.E.From.Instrs)-1])
+				}
+			}
+			c.Decide(nSkip > 0 && ended == "", "R19.2", "merge-scans-all-desired-entries", p.Pos(uh.Pos()), "an infinite-cost desired entry is passed over and the scan continues", "UpdateH stops merging the desired next hops at the first infinite-cost entry ("+ended+"): for a prefix announced by several routers, the faces of every router listed after one that has no finite second-best next hop are never installed")
+		}
 		g1 := core.GateDeep(uh, unreg, pos(gone))
 		g2 := core.GateDeep(uh, reg, neg(same))
 		c.Decide(len(unreg) == 1 && g1.OK && g1.PassEdges > 0, "R19.2", "unregister-only-unreachable", p.Pos(uh.Pos()), "'unregister' is issued only on the edge asserting cost ≥ infinity", "UpdateH can unregister a face that is still a finite-cost next hop (or never unregisters)")
@@ -543,6 +588,13 @@ func C19(c *core.Ctx) {
 		c.Decide(ok, "R19.3", "publish-under-new-sequence", p.Pos(po.Pos()), "the operation is published under the freshly incremented sequence number", "publishOp does not name the published operation by the sequence number it just incremented: peers fetch a sequence number that holds a different (or no) operation")
 	}
 	_ = fmt.Sprint
+
+	// ---- R19.6 (shared with C18 R18.2 / R18.5) the installer reads the routing table after
+	// every change of a cost column was refreshed and pruned: otherwise it rebuilds from
+	// stale next hops and registers routes for destinations that are unreachable
+	c.Import(C18, "R19.6", "the installer can run on a routing table whose entries were not refreshed / pruned after a neighbour was removed: routes for unreachable destinations (and through the dead neighbour's face) are registered", 2, func(k string) bool {
+		return strings.HasPrefix(k, "R18.2:prune-after-mutation") || strings.HasPrefix(k, "R18.5:cost-write-refreshed")
+	})
 
 	// ---- R19.5 the routing daemon and the sync instance that replicates its prefix log do
 	// not take each other's locks in opposite orders: the lock-order graph over dv/… and
